@@ -454,7 +454,7 @@ class Py2Cpp(ITranspiler):
 		vars: list[defs.Var] = []
 		for var in node.ref_vars():
 			var_raw = self.reflections.type_of(var).impl(refs.Object)
-			if var_raw.type_is(type) or var_raw.types.is_a(defs.Function):
+			if var_raw.type_is(type) or (var_raw.types.is_a(defs.Function) and not var_raw.types.is_a(defs.Closure)):
 				continue
 
 			vars.append(var)
